@@ -30,6 +30,10 @@ def conditions(tier):
     for kind, head in (("Other", ""), ("DocStringSeparator", '"""'), ("DocStringSeparator", "```"), ("StepLine", "Given "), ("TableRow", "|"), ("ScenarioLine", "Scenario:")):
         cs.append(Cond("harness.line", "line_after_history", {"kind": kind, "head": head, "history": hist, "maxlen": 1 if q else 2, "maxind": 2}, T=600,
                        label="line.after_history[%s head=%r]" % (kind, head)))
+    hist2 = [["open", '    """'], ["touch", "y"], ["reset"]]
+    for kind, head in (("Other", ""), ("DocStringSeparator", '"""'), ("DocStringSeparator", "```")):
+        cs.append(Cond("harness.line", "line_after_history", {"kind": kind, "head": head, "history": hist2, "maxlen": 1 if q else 2, "maxind": 2}, T=600,
+                       label="line.after_history[no dialect change, %s head=%r]" % (kind, head)))
     hists = [["french", "open-docstring", "rejected"], ["open-docstring2", "bad-tag"], ["ragged", "comments", "accepted"]]
     shapes = ("steps", "docstring", "description") if q else ("titles", "steps", "docstring", "description", "outline")
     for h in hists:
